@@ -80,7 +80,10 @@ def _c18_case(c):
             ops.append({"op": "P", "addr": s(), "u": s(), "p": s(), "r": s(), "a": s()})
         else:
             ops.append({"op": "D", "addr": s()})
-    return {"kind": "H", "init": init, "mode": 420, "subdir": False, "ops": ops}
+    mode = 420
+    if pos[0] + 1 < len(t) and t[pos[0]] == "MODE" and t[pos[0] + 1] != "-":
+        mode = int(t[pos[0] + 1], 8)
+    return {"kind": "H", "init": init, "mode": mode, "subdir": False, "ops": ops}
 
 
 CONFIG = {
